@@ -226,6 +226,7 @@ class Harness:
         self.workers = workers
         self.squid = rig.Squid(stage, conf="cache deny all\n")
         self._start(self.squid)
+        self.sq = {"n": self.squid}
         self.n = 0
         self.lock = threading.Lock()
         self.crashes = 0
@@ -331,7 +332,7 @@ class Harness:
                     if r["end"] not in ("complete", "nohead"):
                         st += ":" + r["end"]
         except OSError:
-            st = "ioerr"
+            st = "none"         # the connection was reset under the client's writes: no response
         finally:
             try:
                 c.close()
